@@ -7,7 +7,7 @@ never a map in which another key appears.
 Not asserted: the particular cell layout (C10); exception types.
 """
 from hypothesis import strategies as st
-from harness.core import Sub, Fail, call, exc_sig
+from harness.core import Sub, Fail, call, exc_sig, describe, look
 
 RULE = ('case = key width n, list of (key, value) in insertion order, key form (int / bytes / bit string / Address for n=267 / '
         'hashed string for n=256), value kind (uint32 / coins / cell-in-ref). exhaustive sub-check: all key subsets for n <= 3 '
@@ -92,6 +92,19 @@ def _intkey(form, n, k):
         wc = (k >> 256) % 256 - 128
         return (0b100 << 264) | ((wc & 0xFF) << 256) | (k % (1 << 256))
     return k
+
+
+def _vshape(vkind, cmpv):
+    """(bits, references) of one stored value"""
+    if vkind == 'uint':
+        return 32, 0
+    if vkind == 'int':
+        return 33, 0
+    if vkind == 'coins':
+        return 4 + 8 * ((cmpv.bit_length() + 7) // 8), 0
+    if vkind == 'addr':
+        return (2 if cmpv is None else 267), 0
+    return 0, 1
 
 
 def _overflows(n, model, vkind):
@@ -209,6 +222,60 @@ def check(case):
             return Fail(f'roundtrip-pairs-differ/{name}', f'n={n} expected {exp_items[:6]} got {sorted(items)[:6]}')
         if [k for k, _ in items] != [k for k, _ in exp_items]:
             return Fail(f'keys-not-ascending/{name}', f'{[k for k, _ in items][:10]}')
+    # readers WITHOUT a value deserializer hand the values out as slices; the caller prints / logs / formats what it got (the whole
+    # dict, single values) BEFORE reading it - formatting a result is not an operation on it: every value is still exactly the stored
+    # one (so many bits and references, reads back as the stored value, nothing behind it)
+    raw = {
+        'load_hashmap': lambda: cell.begin_parse().load_hashmap(n),
+        'HashMap.parse': lambda: HashMap.parse(cell.begin_parse(), n),
+        'from_cell': lambda: HashMap.from_cell(cell, n).map,
+        'load_dict': lambda: Builder().store_dict(cell).end_cell().begin_parse().load_dict(n),
+        'preload_dict@offset': lambda: _after_prefix(cell).preload_dict(n),
+    }
+    for i, (name, rd) in enumerate(raw.items()):
+        ok, got = call(rd)
+        if not ok or not isinstance(got, dict):
+            return Fail(f'reader-raises/{name}/no-value-deserializer', f'{exc_sig(got) if not ok else ""}: {got!r} n={n}'[:400])
+        how = (i + len(pairs)) % 3
+        if how == 0:
+            describe(got, *list(got.values())[:4])
+        elif how == 1:
+            look(got)
+        else:
+            for v_ in list(got.values())[:6]:
+                look(v_)
+        if [k for k in got] != [k for k, _ in exp_items]:
+            return Fail(f'roundtrip-pairs-differ/{name}/no-value-deserializer', f'n={n} keys {list(got)[:8]}, expected {[k for k, _ in exp_items][:8]}')
+        for k, cmpv in exp_items:
+            sl = got[k]
+            shape = _vshape(vkind, cmpv)
+            ok, r = call(lambda: (sl.remaining_bits, sl.remaining_refs))
+            if not ok or r != shape:
+                return Fail('value-slice-differs-after-it-was-printed/size', f'{name}: n={n} key {k}: value slice has (bits, refs) = {r!r}, stored {shape}')
+            ok, r = call(des, sl)
+            if not ok or r != cmpv:
+                return Fail('value-slice-differs-after-it-was-printed/content', f'{name}: n={n} key {k}: reads as {r!r}, stored {cmpv!r}'[:400])
+            if sl.remaining_bits or sl.remaining_refs:
+                return Fail('value-slice-differs-after-it-was-printed/leftover', f'{name}: n={n} key {k}: {sl.remaining_bits} bits / {sl.remaining_refs} refs behind the value')
+    # ... the same for a map object made by from_cell, printed, and serialised again: parsing THAT gives the pairs
+    ok, hmf = call(HashMap.from_cell, cell, n)
+    if ok:
+        (describe if len(pairs) % 2 else look)(hmf.map)
+        describe(hmf)
+        ok, cf = call(hmf.serialize)
+        ok2, got = call(lambda: cf.begin_parse().load_hashmap(n, value_deserializer=des)) if ok and cf is not None else (False, cf)
+        if not ok2 or list(got.items()) != exp_items:
+            return Fail('from_cell-map-printed-then-serialised-differs', f'n={n}: {exc_sig(got) if isinstance(got, BaseException) else ""} '
+                        f'{sorted(got.items())[:4] if ok2 else got!r}, expected {exp_items[:4]}'[:500])
+    # ... and on the writing side: the caller prints the map object, its dict, its values and the cell it got; the same object then
+    # serialises to the same cell, and the printed cell still parses to the pairs
+    describe(hm, hm.map, cell, *list(hm.map.values())[:3])
+    ok, again = call(hm.serialize)
+    if not ok or again is None or again.hash != cell.hash:
+        return Fail('serialize-differs-after-the-map-was-printed', f'n={n}: {again!r}'[:300])
+    ok, got = call(lambda: cell.begin_parse().load_hashmap(n, value_deserializer=des))
+    if not ok or list(got.items()) != exp_items:
+        return Fail('roundtrip-pairs-differ/after-the-cell-was-printed', f'n={n}: {sorted(got.items())[:4] if ok else got!r}'[:400])
     # the module-level writer HashMap.serialize rests on, called directly with the caller's dict in ITS insertion order
     if form in ('int', 'bits', 'bytes'):
         from pytoniq_core.boc.hashmap.utils import serialize_dict
